@@ -10,6 +10,7 @@ position encoding the workspace really uses.  A smaller stream drives ServerCapa
 directly (no built-in features), as the pinned tests do."""
 import itertools, json, os, re
 import core
+import priv
 
 NEWER_THAN_317 = {"textDocument/inlineCompletion", "textDocument/rangesFormatting",
                   "workspace/textDocumentContent", "workspace/textDocumentContent/refresh",
@@ -191,7 +192,10 @@ class C12(core.Property):
                     "Model/Features.v (C19's model of FeatureManager.feature/command, tied to /repo by C19's check and by the history cases here)",
                     "extraction with ExtrOcamlBasic only + ocaml/c12_driver.ml + conv_io/conv_n",
                     "harness/c12.py (generators, JSON assembly from model values) and harness/gen_c12.py",
-                    "modelled not verified: dict.get / `in` on the feature set, `and` on None/bool, cattrs unstructure of the result"]
+                    "modelled not verified: dict.get / `in` on the feature set, `and` on None/bool, cattrs unstructure of the result",
+                    priv.trusted(["capabilities.supported_encodings"]) + "; gen_c12.py reads the SOURCE of "
+                    "ServerCapabilitiesBuilder.build and of the _with_* methods it chains (a table tie like the AST translator's)"]
+    private = ["capabilities.supported_encodings"]
     assumptions = ["option objects are instances of the options class lsprotocol names for the method (attrs objects, truthy)",
                    "command names are distinct (the registry is a dict)",
                    "methods newer than LSP 3.17 in the installed registry are outside the statement"]
